@@ -24,7 +24,9 @@ def size_txt(sz):
 
 def build(rng):
     g = Gen(rng, Opts(allow_exotic=0.0))
-    kind = rng.choice(['octs', 'octs', 'IA5String', 'VisibleString', 'NumericString', 'PrintableString', 'UTF8String', 'bits'])
+    kind = rng.choice(['octs', 'octs', 'IA5String', 'VisibleString', 'NumericString', 'PrintableString', 'UTF8String', 'bits', 'int', 'int'])
+    if kind == 'int':
+        return build_int(rng, g)
     if kind == 'octs':
         base = {'k': 'octs', 'size': None}
     elif kind == 'bits':
@@ -117,6 +119,72 @@ def build(rng):
     return {'text': text, 'sorted': sorted_text, 'inline': inline, 'probes': probes, 'uses': uses, 'auto': auto, 'base_kind': kind}
 
 
+def build_int(rng, g):
+    """the same family for a referenced INTEGER type: value ranges at the point of use (`level Level (0..10)`)"""
+    names = list(rng.choice(NAME_SETS))[:rng.choice([2, 3, 3])]
+    auto = rng.random() < 0.25
+    base_rng = rng.choice([None, None, (0, 255), (-128, 127), (0, 65535)])
+    lo0, hi0 = base_rng if base_rng else (-1000, 1000)
+    uses = rng.sample(['range', 'range'], 1) + rng.sample(['opt', 'plain', 'default', 'range', 'tag'], 1)
+    rng.shuffle(uses)
+    while len(uses) < len(names):
+        uses.append(rng.choice(['range', 'opt', 'plain', 'default']))
+    types_ast, texts, inline_texts = [], [], []
+    base_txt = 'INTEGER' + (' (%d..%d)' % base_rng if base_rng else '')
+    for name, use in zip(names, uses):
+        t = {'k': 'int', 'lo': base_rng[0] if base_rng else None, 'hi': base_rng[1] if base_rng else None, 'ext': False, 'con': bool(base_rng)}
+        opt, default, tag, ctxt = False, None, '', ''
+        if use == 'range':
+            a = rng.randint(lo0, hi0 - 1)
+            b = rng.randint(a, min(hi0, a + rng.choice([0, 1, 10, 100, 255, 256])))
+            t = dict(t, lo=a, hi=b, con=True)
+            ctxt = ' (%d..%d)' % (a, b)
+        elif use == 'opt':
+            opt = True
+        elif use == 'default':
+            default = rng.randint(lo0, hi0)
+        elif use == 'tag' and not auto:
+            tag = '[%d] ' % rng.choice([0, 1, 5])
+        # (no other INTEGER component: next to an OPTIONAL / DEFAULT `key` it would be ambiguous without tags)
+        others = [('o', {'k': 'octs', 'size': (0, 2, False)}, 'OCTET STRING (SIZE(0..2))')] if rng.random() < 0.6 else []
+        if rng.random() < 0.5:
+            others.append(('b', {'k': 'bool'}, 'BOOLEAN'))
+        m_key = {'name': 'key', 't': t, 'opt': opt, 'default': default}
+        key_first = rng.random() < 0.6 or not others
+        ms = ([m_key] if key_first else []) + [{'name': n_, 't': t_, 'opt': False, 'default': None} for n_, t_, _ in others] + ([] if key_first else [m_key])
+        qual = ' OPTIONAL' if opt else (' DEFAULT %d' % default if default is not None else '')
+        key_ref = 'key %sKey%s%s' % (tag, ctxt, qual)
+        key_inl = 'key %s%s%s%s' % (tag, 'INTEGER' if ctxt else base_txt, ctxt, qual)
+        oth = ['%s %s' % (n_, tx) for n_, _, tx in others]
+        texts.append('%s ::= SEQUENCE { %s }' % (name, ', '.join(([key_ref] if key_first else []) + oth + ([] if key_first else [key_ref]))))
+        inline_texts.append('%s ::= SEQUENCE { %s }' % (name, ', '.join(([key_inl] if key_first else []) + oth + ([] if key_first else [key_inl]))))
+        types_ast.append((name, {'k': 'seq', 'root': ms, 'ext': None}))
+    head = 'M DEFINITIONS %s::= BEGIN\n' % ('AUTOMATIC TAGS ' if auto else '')
+    key_line = 'Key ::= %s' % base_txt
+    lines = ([key_line] if rng.random() < 0.5 else []) + texts
+    if key_line not in lines:
+        lines.append(key_line)
+    text = head + '\n'.join(lines) + '\nEND\n'
+    sorted_text = head + '\n'.join(sorted(lines)) + '\nEND\n'
+    inline = head + '\n'.join(inline_texts) + '\nEND\n'
+    probes = []
+    for name, ast_t in types_ast:
+        kt = [m for m in ast_t['root'] if m['name'] == 'key'][0]['t']
+        cands = {lo0, hi0, 0, 1, -1, 255, 256}
+        if kt['lo'] is not None:
+            cands |= {kt['lo'] - 1, kt['lo'], kt['lo'] + 1, kt['hi'] - 1, kt['hi'], kt['hi'] + 1, (kt['lo'] + kt['hi']) // 2}
+        for other_name, other in types_ast:
+            ot = [m for m in other['root'] if m['name'] == 'key'][0]['t']
+            if ot['lo'] is not None:
+                cands |= {ot['lo'], ot['hi'], (ot['lo'] + ot['hi']) // 2}
+        for kv in sorted(cands)[:14]:
+            v = g.value(ast_t)
+            v['key'] = kv
+            probes.append((name, ast_t, v))
+        probes.append((name, ast_t, g.value(ast_t)))
+    return {'text': text, 'sorted': sorted_text, 'inline': inline, 'probes': probes, 'uses': uses, 'auto': auto, 'base_kind': 'int'}
+
+
 def size_on_reference_honoured(codec, kind):
     """does `Ref (SIZE(..))` at a member change the encoding rule the same way as an inline SIZE? (recorded finding otherwise)"""
     if codec in ('per', 'uper'):
@@ -168,6 +236,8 @@ def run_c19(sink, rng, n, impl, codecs):
 
 
 def in_size(t, v):
+    if t['k'] == 'int':
+        return (t['lo'] is None or v >= t['lo']) and (t['hi'] is None or v <= t['hi'])
     sz = t.get('size')
     if not sz:
         return True
@@ -215,3 +285,70 @@ def run_c01(sink, rng, n, impl, codecs, py_equal, only_text_safe=False):
                 if d[0] != 'ok' or not py_equal(ast_t, d[1], v):
                     sink.violation('%s: a value does not round-trip (members that share a name and a referenced type)' % codec,
                                    {'codec': codec, 'module': fam['text'], 'type': name, 'value': repr(v), 'encoded': r[1].hex(), 'decoded': repr(d[1:])[:300]})
+
+
+def run_c12(sink, rng, n, impl, codecs):
+    """one ill-formed component per value: the mandatory `key` missing, or ill-typed — EncodeError with the dotted path, for every
+    use of the shared referenced type (a DEFAULT / OPTIONAL of a same-named member of ANOTHER type must not leak in)"""
+    for i in range(n):
+        fam = build(rng)
+        seen = set()
+        for name, ast_t, v in fam['probes']:
+            if name in seen:
+                continue
+            seen.add(name)
+            key_m = [m for m in ast_t['root'] if m['name'] == 'key'][0]
+            cases = [('wrong-python-type', dict(v, key=rng.choice([5, None, 1.5, [], {}])), name + '.key')]
+            if not key_m['opt'] and key_m['default'] is None:
+                nv = {k: x for k, x in v.items() if k != 'key'}
+                cases.append(('missing-mandatory-member', nv, name))
+            for kind, cv, expect in cases:
+                if kind == 'wrong-python-type' and key_m['t']['k'] == 'bits' and cv['key'] is None and False:
+                    continue
+                for codec in codecs:
+                    st, spec = impl.compile_text(fam['text'], codec)
+                    if st != 'ok':
+                        continue
+                    sink.case((fam['text'], name, repr(cv), codec))
+                    r = impl.encode(spec, name, cv, check_types=True, check_constraints=True)
+                    cls = 'bytes' if r[0] == 'ok' else r[1]
+                    sink.count('aliasfam.%s.%s' % (kind, cls.split(':')[0]))
+                    bad = None
+                    if cls not in ('EncodeError', 'ConstraintsError'):
+                        bad = 'surfaces as %s instead of the library error' % cls if cls != 'bytes' else 'is encoded to bytes'
+                    elif r[2].split(': ')[0] != expect:
+                        bad = 'is reported at %r, expected path %r' % (r[2].split(': ')[0], expect)
+                    if bad:
+                        sink.violation('%s: %s component %s (members of different types share a name and a referenced type)' % (codec, kind, bad),
+                                       {'codec': codec, 'module': fam['text'], 'type': name, 'value': repr(cv), 'kind': kind, 'impl': repr(r[1:3])[:300] if r[0] == 'err' else r[1].hex(),
+                                        'expected_path': expect})
+
+
+def run_c11(sink, rng, n, impl, codecs):
+    """with check_constraints=True a value is rejected with ConstraintsError if and only if it violates the constraint written at ITS OWN
+    member (value range / SIZE at the point of use of a shared referenced type), and nothing outside reaches the wire"""
+    for i in range(n):
+        fam = build(rng)
+        for codec in codecs:
+            st, spec = impl.compile_text(fam['text'], codec)
+            if st != 'ok':
+                sink.count('aliasfam.compile.%s' % st)
+                continue
+            for name, ast_t, v in fam['probes']:
+                key_m = [m for m in ast_t['root'] if m['name'] == 'key'][0]
+                if 'key' not in v:
+                    continue
+                inside = in_size(key_m['t'], v['key'])
+                n_ok = all(m['name'] not in v or m['t']['k'] not in ('int', 'octs') or in_size(m['t'], v[m['name']]) for m in ast_t['root'])
+                if not n_ok and inside:
+                    continue
+                sink.case((fam['text'], name, repr(v), codec, 'cc'))
+                r = impl.encode(spec, name, v, check_constraints=True)
+                cls = 'bytes' if r[0] == 'ok' else r[1]
+                sink.count('aliasfam.c11.%s.%s' % ('inside' if inside else 'outside', cls.split(':')[0]))
+                if inside and cls == 'ConstraintsError':
+                    sink.violation('%s: a value inside the constraint written at its own member is rejected (constraint of a same-named member of another type?)' % codec,
+                                   {'codec': codec, 'module': fam['text'], 'type': name, 'value': repr(v), 'error': r[2][:200]})
+                elif not inside and cls == 'bytes':
+                    sink.violation('%s: a value outside the constraint written at its own member reaches the wire with check_constraints=True' % codec,
+                                   {'codec': codec, 'module': fam['text'], 'type': name, 'value': repr(v), 'encoded': r[1].hex() if isinstance(r[1], (bytes, bytearray)) else repr(r[1])[:200]})
